@@ -5,6 +5,7 @@ except what DESIGN.md 1.1 lists as dropped: docstrings and calls to ``log.*`` (t
 expression, arguments included, is treated as an effect-free no-op returning None).
 """
 import ast
+import re
 import z3
 
 from .core import EngineError, PathEnd, is_z3
@@ -513,6 +514,8 @@ class Interp(object):
 
   def eq(self, a, b):
     """-> Python bool or z3 Bool"""
+    if (a is None or b is None) and hasattr(b if a is None else a, 'is_none'):
+      return (b if a is None else a).is_none(self)
     if a is None or b is None:
       if a is None and b is None:
         return True
@@ -570,6 +573,9 @@ class Interp(object):
 
   def is_same(self, a, b):
     if a is None or b is None:
+      o = b if a is None else a
+      if hasattr(o, 'is_none'):
+        return o.is_none(self)
       return self.eq(a, b)
     if isinstance(a, (bool, int, str)) and isinstance(b, (bool, int, str)):
       return a is b or a == b
@@ -760,6 +766,17 @@ class Interp(object):
 
   def str_format(self, fmt, arg):
     """'%..' % args with symbolic parts -> an uninterpreted Atom function of the template."""
+    nspec = len(re.findall(r'%(?!%)', fmt.replace('%%', ''))) if isinstance(fmt, str) else None
+    if nspec is not None and '%(' not in fmt:
+      if isinstance(arg, tuple):
+        if len(arg) != nspec:
+          raise PyRaise(ExcVal('TypeError', ('not all arguments converted during string formatting',)))
+      elif isinstance(arg, Model) and hasattr(arg, 'tuple_len_other_than'):
+        # a bare operand that may itself be a tuple is taken as the argument tuple
+        if self.ctx.branch(arg.tuple_len_other_than(self, nspec), 'format operand is a tuple of the wrong length'):
+          raise PyRaise(ExcVal('TypeError', ('not all arguments converted during string formatting',)))
+      elif nspec != 1:
+        raise PyRaise(ExcVal('TypeError', ('not enough arguments for format string',)))
     args = arg if isinstance(arg, tuple) else (arg,)
     if all(isinstance(x, (int, float, str)) and not isinstance(x, bool) for x in args):
       try:
@@ -1003,6 +1020,14 @@ class Interp(object):
 
   def e_Call(self, n, fr):
     if self.is_log_call(n, fr):
+      if self.ext.get('eval_log_args'):
+        # the call itself is dropped, but its argument expressions are still evaluated so that
+        # an exception raised while building the log text is seen (unsupported forms are skipped)
+        for a in n.args:
+          try:
+            self.eval(a, fr)
+          except EngineError:
+            pass
       return None           # extraction drop: log.* calls are effect-free no-ops
     if isinstance(n.func, ast.Name) and n.func.id == 'super':
       return self.make_super(n, fr)
@@ -1380,6 +1405,8 @@ class Interp(object):
     spec.havoc(fr)
     havocked = set(id(o) for (o, f) in self.writes[mark:])
     for k, v in before.items():
+      # `locals_modified` names the locals whose value at the loop head is set by havoc() or
+      # pinned by the invariant; every other pre-existing local the body assigns is havocked here
       if k in declared:
         continue
       now = fr.locals.get(k, MISSING)
@@ -1432,8 +1459,9 @@ class Interp(object):
       return self.ctx.fresh(z3.RealSort(), hint)
     if is_z3(v):
       return self.ctx.fresh(v.sort(), hint)
-    if v is None:
-      return MISSING
+    from .models import AnyValue
+    if v is None or isinstance(v, (str, tuple)):
+      return AnyValue(hint)
     return MISSING
 
   def frame_check(self, mark, havocked, birth, fr, ordn):
